@@ -236,7 +236,7 @@ def shards(tier, seed):
     for va, vb in ((1, 2), (2, 3), (1, 3)):
         if tier == "quick":
             groups = [["CONTINUOUS_NUMBERS", "NUMERIC_FLUENTS"], ["DISCRETE_NUMBERS", "NUMERIC_FLUENTS"], ["ACTIONS_COST", "OVERSUBSCRIPTION"],
-                      ["CONTINUOUS_TIME", "DISCRETE_TIME"]] if va == 1 else [[]]
+                      ["CONTINUOUS_TIME", "DISCRETE_TIME"], ["CONTINUOUS_NUMBERS", "DISCRETE_NUMBERS", "NUMERIC_FLUENTS"]] if va == 1 else [[]]
         else:
             groups = [None]
         for gi, g in enumerate(groups):
